@@ -30,10 +30,11 @@ VARIABLES vAssets,   \* Seq([h, id, name, type, def, extras])   live assets, lis
           vDead,     \* handles of asset objects that were removed or whose add was rejected
           vDeadAs,   \* same for association objects
           vDeadAtk,  \* same for attacker objects
+          vGone,     \* what a dead object looked like: [h -> [id, name]] / [h -> [cls, l, r]]
           vNextId,   \* policy state: the default id the documented policy would choose next
           vNextH,    \* next fresh handle (generation mode)
           vAct       \* label of the last action
-mvars == <<vAssets, vAssocs, vAtk, vDead, vDeadAs, vDeadAtk, vNextId, vNextH, vAct>>
+mvars == <<vAssets, vAssocs, vAtk, vDead, vDeadAs, vDeadAtk, vGone, vNextId, vNextH, vAct>>
 pvars == <<vAssets, vAssocs, vAtk>>                  \* the property-level state
 
 LiveH    == {vAssets[k].h : k \in DOMAIN vAssets}
@@ -52,8 +53,14 @@ Types    == AssetNames(Lng)
 Bump(nh) == IF nh >= vNextH THEN nh + 1 ELSE vNextH
 
 Init == /\ vAssets = <<>> /\ vAssocs = <<>> /\ vAtk = <<>>
-        /\ vDead = {} /\ vDeadAs = {} /\ vDeadAtk = {}
+        /\ vDead = {} /\ vDeadAs = {} /\ vDeadAtk = {} /\ vGone = EmptyMap
         /\ vNextId = 0 /\ vNextH = 1 /\ vAct = [op |-> "Init", res |-> "ok"]
+
+\* Python compares these objects BY VALUE (python_jsonschema_objects, dataclass): a dead object that is
+\* indistinguishable from a live one ("value twin") is outside the specified domain of the handle-taking calls
+TwinAsset(hh) == hh \in DOMAIN vGone /\ \E k \in DOMAIN vAssets : vAssets[k].id = vGone[hh].id /\ vAssets[k].name = vGone[hh].name
+TwinAssoc(ah) == ah \in DOMAIN vGone /\ \E k \in DOMAIN vAssocs : vAssocs[k].cls = vGone[ah].cls /\ vAssocs[k].l = vGone[ah].l /\ vAssocs[k].r = vGone[ah].r
+TwinAtk(th)   == th \in DOMAIN vGone /\ \E k \in DOMAIN vAtk : vAtk[k].id = vGone[th].id /\ vAtk[k].name = vGone[th].name
 
 (* ------------------------------- assets -------------------------------- *)
 DefaultDefs(T) == [d \in Defenses(Lng, T) |-> DefenseDefault(Lng, T, d)]
@@ -75,12 +82,12 @@ AddAssetOK(T, reqName, reqId, allowDup, newId, newName, nh) ==
   /\ vAct' = [op |-> "AddAsset", T |-> T, reqName |-> reqName, reqId |-> reqId, allowDup |-> allowDup,
               res |-> "ok", h |-> nh, id |-> newId, name |-> newName,
               polId |-> (reqId = NoId), polName |-> NeedsAutoName(reqName)]
-  /\ UNCHANGED <<vAssocs, vAtk, vDead, vDeadAs, vDeadAtk>>
+  /\ UNCHANGED <<vAssocs, vAtk, vDead, vDeadAs, vDeadAtk, vGone>>
 AddAssetRej(T, reqName, reqId, allowDup, nh) ==
   /\ nh <= MaxH /\ nh \notin Known /\ T \in Types
   /\ \/ reqId # NoId /\ reqId \in LiveIds
      \/ reqName # NONE /\ reqName \in LiveNm /\ ~allowDup
-  /\ vDead' = vDead \cup {nh} /\ vNextH' = Bump(nh)
+  /\ vDead' = vDead \cup {nh} /\ vNextH' = Bump(nh) /\ vGone' = Put(vGone, nh, [id |-> reqId, name |-> reqName])
   /\ vAct' = [op |-> "AddAsset", T |-> T, reqName |-> reqName, reqId |-> reqId, allowDup |-> allowDup,
               res |-> "exc", h |-> nh, id |-> NoId, name |-> NONE, polId |-> FALSE, polName |-> FALSE]
   /\ UNCHANGED <<vAssets, vAssocs, vAtk, vDeadAs, vDeadAtk, vNextId>>
@@ -92,7 +99,7 @@ AddAssetCollide(T, reqName, reqId, allowDup, newId, nh) ==
   /\ newId \notin LiveIds
   /\ NeedsAutoName(reqName) /\ (reqName # NONE => allowDup)
   /\ PolicyName(T, reqName, newId) \in LiveNm
-  /\ vDead' = vDead \cup {nh} /\ vNextH' = Bump(nh)
+  /\ vDead' = vDead \cup {nh} /\ vNextH' = Bump(nh) /\ vGone' = Put(vGone, nh, [id |-> reqId, name |-> reqName])
   /\ vAct' = [op |-> "AddAsset", T |-> T, reqName |-> reqName, reqId |-> reqId, allowDup |-> allowDup,
               res |-> "collide", h |-> nh, id |-> newId, name |-> NONE, polId |-> (reqId = NoId), polName |-> TRUE]
   /\ UNCHANGED <<vAssets, vAssocs, vAtk, vDeadAs, vDeadAtk, vNextId>>
@@ -108,12 +115,16 @@ RemoveAssetOK(hh) ==
   /\ vAtk' = [k \in DOMAIN vAtk |-> StripEp(vAtk[k], hh)]          \* and from every attacker's entry points
   /\ vDead' = vDead \cup {hh}
   /\ vDeadAs' = vDeadAs \cup (LiveAs \ {vAssocs'[k].h : k \in DOMAIN vAssocs'})
+  /\ vGone' = [x \in DOMAIN vGone \cup {hh} \cup (vDeadAs' \ vDeadAs) |->
+                 IF x = hh THEN [id |-> AssetOf(hh).id, name |-> AssetOf(hh).name]
+                 ELSE IF x \in DOMAIN vGone THEN vGone[x]
+                 ELSE [cls |-> AssocOf(x).cls, l |-> <<>>, r |-> <<>>]]      \* an emptied association has no twin
   /\ vAct' = [op |-> "RemoveAsset", h |-> hh, res |-> "ok"]
   /\ UNCHANGED <<vDeadAtk, vNextId, vNextH>>
 RemoveAssetRej(hh) ==
-  /\ hh \in vDead
+  /\ hh \in vDead /\ ~TwinAsset(hh)
   /\ vAct' = [op |-> "RemoveAsset", h |-> hh, res |-> "exc"]
-  /\ UNCHANGED <<vAssets, vAssocs, vAtk, vDead, vDeadAs, vDeadAtk, vNextId, vNextH>>
+  /\ UNCHANGED <<vAssets, vAssocs, vAtk, vDead, vDeadAs, vDeadAtk, vGone, vNextId, vNextH>>
 
 \* C06: defense values outside [0,1] are rejected
 SetDefense(hh, d, v) ==
@@ -122,12 +133,12 @@ SetDefense(hh, d, v) ==
      /\ vAssets' = IF ok THEN [k \in DOMAIN vAssets |-> IF vAssets[k].h = hh THEN [vAssets[k] EXCEPT !.def[d] = v] ELSE vAssets[k]]
                          ELSE vAssets
      /\ vAct' = [op |-> "SetDefense", h |-> hh, d |-> d, v |-> v, res |-> IF ok THEN "ok" ELSE "exc"]
-  /\ UNCHANGED <<vAssocs, vAtk, vDead, vDeadAs, vDeadAtk, vNextId, vNextH>>
+  /\ UNCHANGED <<vAssocs, vAtk, vDead, vDeadAs, vDeadAtk, vGone, vNextId, vNextH>>
 SetAssetExtras(hh, x) ==
   /\ hh \in LiveH
   /\ vAssets' = [k \in DOMAIN vAssets |-> IF vAssets[k].h = hh THEN [vAssets[k] EXCEPT !.extras = x] ELSE vAssets[k]]
   /\ vAct' = [op |-> "SetAssetExtras", h |-> hh, x |-> x, res |-> "ok"]
-  /\ UNCHANGED <<vAssocs, vAtk, vDead, vDeadAs, vDeadAtk, vNextId, vNextH>>
+  /\ UNCHANGED <<vAssocs, vAtk, vDead, vDeadAs, vDeadAtk, vGone, vNextId, vNextH>>
 
 (* ----------------------------- associations ---------------------------- *)
 LinkExists(c, a, b) == \E k \in DOMAIN vAssocs : vAssocs[k].cls = c /\ a \in Range(vAssocs[k].l) /\ b \in Range(vAssocs[k].r)
@@ -148,6 +159,7 @@ AddAssociation(c, l, r, nh) ==
      /\ why = "ok" => Len(vAssocs) < MaxAssocs
      /\ vAssocs' = IF why = "ok" THEN Append(vAssocs, [h |-> nh, cls |-> c, l |-> l, r |-> r, extras |-> 0]) ELSE vAssocs
      /\ vDeadAs' = IF why = "ok" THEN vDeadAs ELSE vDeadAs \cup {nh}
+     /\ vGone' = IF why = "ok" THEN vGone ELSE Put(vGone, nh, [cls |-> c, l |-> l, r |-> r])
      /\ vAct' = [op |-> "AddAssociation", cls |-> c, l |-> l, r |-> r, res |-> (IF why = "ok" THEN "ok" ELSE "exc"),
                  why |-> why, h |-> nh]
   /\ vNextH' = Bump(nh)
@@ -155,50 +167,56 @@ AddAssociation(c, l, r, nh) ==
 RemoveAssociationOK(ah) ==
   /\ ah \in LiveAs
   /\ vAssocs' = SelectSeq(vAssocs, LAMBDA a : a.h # ah) /\ vDeadAs' = vDeadAs \cup {ah}
+  /\ vGone' = Put(vGone, ah, [cls |-> AssocOf(ah).cls, l |-> AssocOf(ah).l, r |-> AssocOf(ah).r])
   /\ vAct' = [op |-> "RemoveAssociation", h |-> ah, res |-> "ok"]
   /\ UNCHANGED <<vAssets, vAtk, vDead, vDeadAtk, vNextId, vNextH>>
 RemoveAssociationRej(ah) ==
-  /\ ah \in vDeadAs
+  /\ ah \in vDeadAs /\ ~TwinAssoc(ah)
   /\ vAct' = [op |-> "RemoveAssociation", h |-> ah, res |-> "exc"]
-  /\ UNCHANGED <<vAssets, vAssocs, vAtk, vDead, vDeadAs, vDeadAtk, vNextId, vNextH>>
+  /\ UNCHANGED <<vAssets, vAssocs, vAtk, vDead, vDeadAs, vDeadAtk, vGone, vNextId, vNextH>>
 RemoveFromAssoc(hh, ah) ==
   /\ hh \in LiveH \cup vDead /\ ah \in LiveAs \cup vDeadAs
+  /\ ~TwinAsset(hh) /\ ~TwinAssoc(ah)
   /\ LET ok == hh \in LiveH /\ ah \in LiveAs /\ hh \in Range(AssocOf(ah).l) \cup Range(AssocOf(ah).r) IN
      /\ vAssocs' = IF ok THEN KeepNonEmpty([k \in DOMAIN vAssocs |->
                                   IF vAssocs[k].h = ah THEN StripAssoc(vAssocs[k], hh) ELSE vAssocs[k]])
                          ELSE vAssocs
      /\ vDeadAs' = vDeadAs \cup (LiveAs \ {vAssocs'[k].h : k \in DOMAIN vAssocs'})
+     /\ vGone' = [x \in DOMAIN vGone \cup (vDeadAs' \ vDeadAs) |->
+                    IF x \in DOMAIN vGone THEN vGone[x] ELSE [cls |-> AssocOf(x).cls, l |-> <<>>, r |-> <<>>]]
      /\ vAct' = [op |-> "RemoveFromAssoc", h |-> hh, ah |-> ah, res |-> IF ok THEN "ok" ELSE "exc"]
   /\ UNCHANGED <<vAssets, vAtk, vDead, vDeadAtk, vNextId, vNextH>>
 SetAssocExtras(ah, x) ==
   /\ ah \in LiveAs
   /\ vAssocs' = [k \in DOMAIN vAssocs |-> IF vAssocs[k].h = ah THEN [vAssocs[k] EXCEPT !.extras = x] ELSE vAssocs[k]]
   /\ vAct' = [op |-> "SetAssocExtras", h |-> ah, x |-> x, res |-> "ok"]
-  /\ UNCHANGED <<vAssets, vAtk, vDead, vDeadAs, vDeadAtk, vNextId, vNextH>>
+  /\ UNCHANGED <<vAssets, vAtk, vDead, vDeadAs, vDeadAtk, vGone, vNextId, vNextH>>
 
 (* ------------------------------ attackers ------------------------------ *)
 \* attacker ids: an explicit id is honoured; a default id is any id (the property only speaks of
 \* asset ids); an explicit id equal to a live attacker's is outside the specified domain
-AddAttacker(reqId, reqName, newId, newName, nh) ==
+AddAttacker(reqId, reqName, newId, newName, ep0, nh) ==
   /\ Len(vAtk) < MaxAtk /\ nh <= MaxH /\ nh \notin Known
   /\ reqId # NoId => (newId = reqId /\ reqId \notin AtkIds)
   /\ newId \notin AtkIds
   /\ reqName # NONE => newName = reqName
-  /\ vAtk' = Append(vAtk, [h |-> nh, id |-> newId, name |-> newName, ep |-> <<>>])
+  /\ \A i \in DOMAIN ep0 : ep0[i].a \in LiveH                     \* entry points prepared before the call
+  /\ vAtk' = Append(vAtk, [h |-> nh, id |-> newId, name |-> newName, ep |-> ep0])
   /\ vNextId' = IF newId + 1 > vNextId THEN newId + 1 ELSE vNextId
   /\ vNextH' = Bump(nh)
   /\ vAct' = [op |-> "AddAttacker", reqId |-> reqId, reqName |-> reqName, res |-> "ok", h |-> nh, id |-> newId,
               name |-> newName, polId |-> (reqId = NoId), polName |-> (reqName = NONE)]
-  /\ UNCHANGED <<vAssets, vAssocs, vDead, vDeadAs, vDeadAtk>>
+  /\ UNCHANGED <<vAssets, vAssocs, vDead, vDeadAs, vDeadAtk, vGone>>
 RemoveAttackerOK(th) ==
   /\ th \in LiveAtk
   /\ vAtk' = SelectSeq(vAtk, LAMBDA t : t.h # th) /\ vDeadAtk' = vDeadAtk \cup {th}
+  /\ vGone' = Put(vGone, th, [id |-> AtkOf(th).id, name |-> AtkOf(th).name])
   /\ vAct' = [op |-> "RemoveAttacker", h |-> th, res |-> "ok"]
   /\ UNCHANGED <<vAssets, vAssocs, vDead, vDeadAs, vNextId, vNextH>>
 RemoveAttackerRej(th) ==
-  /\ th \in vDeadAtk
+  /\ th \in vDeadAtk /\ ~TwinAtk(th)
   /\ vAct' = [op |-> "RemoveAttacker", h |-> th, res |-> "exc"]
-  /\ UNCHANGED <<vAssets, vAssocs, vAtk, vDead, vDeadAs, vDeadAtk, vNextId, vNextH>>
+  /\ UNCHANGED <<vAssets, vAssocs, vAtk, vDead, vDeadAs, vDeadAtk, vGone, vNextId, vNextH>>
 EpIdx(ep, hh) == IF \E i \in DOMAIN ep : ep[i].a = hh THEN CHOOSE i \in DOMAIN ep : ep[i].a = hh ELSE 0
 AddEntryPoint(th, hh, s) ==
   /\ th \in LiveAtk /\ hh \in LiveH
@@ -208,9 +226,9 @@ AddEntryPoint(th, hh, s) ==
             IF i = 0 THEN [vAtk[k] EXCEPT !.ep = Append(@, [a |-> hh, steps |-> <<s>>])]
             ELSE [vAtk[k] EXCEPT !.ep[i].steps = AppendNew(@, s)]]
   /\ vAct' = [op |-> "AddEntryPoint", h |-> th, a |-> hh, s |-> s, res |-> "ok"]
-  /\ UNCHANGED <<vAssets, vAssocs, vDead, vDeadAs, vDeadAtk, vNextId, vNextH>>
-RemoveEntryPoint(th, hh, s) ==
-  /\ th \in LiveAtk /\ hh \in LiveH
+  /\ UNCHANGED <<vAssets, vAssocs, vDead, vDeadAs, vDeadAtk, vGone, vNextId, vNextH>>
+RemoveEntryPoint(th, hh, s) ==          \* an asset without entry points (e.g. a removed one): nothing to remove
+  /\ th \in LiveAtk
   /\ vAtk' = [k \in DOMAIN vAtk |->
        IF vAtk[k].h # th THEN vAtk[k]
        ELSE LET i == EpIdx(vAtk[k].ep, hh) IN
@@ -218,7 +236,14 @@ RemoveEntryPoint(th, hh, s) ==
             ELSE LET t == [vAtk[k] EXCEPT !.ep[i].steps = Without(@, s)] IN
                  [t EXCEPT !.ep = SelectSeq(@, LAMBDA e : e.steps # <<>>)]]
   /\ vAct' = [op |-> "RemoveEntryPoint", h |-> th, a |-> hh, s |-> s, res |-> "ok"]
-  /\ UNCHANGED <<vAssets, vAssocs, vDead, vDeadAs, vDeadAtk, vNextId, vNextH>>
+  /\ UNCHANGED <<vAssets, vAssocs, vDead, vDeadAs, vDeadAtk, vGone, vNextId, vNextH>>
+
+\* entry_points is a public field: direct assignment by the caller (the translators do this)
+SetEntryPoints(th, ep) ==
+  /\ th \in LiveAtk /\ \A i \in DOMAIN ep : ep[i].a \in LiveH
+  /\ vAtk' = [k \in DOMAIN vAtk |-> IF vAtk[k].h = th THEN [vAtk[k] EXCEPT !.ep = ep] ELSE vAtk[k]]
+  /\ vAct' = [op |-> "SetEntryPoints", h |-> th, res |-> "ok"]
+  /\ UNCHANGED <<vAssets, vAssocs, vDead, vDeadAs, vDeadAtk, vGone, vNextId, vNextH>>
 
 (* ------------------------------- Next ---------------------------------- *)
 Members == SeqsFrom1(LiveH, MaxMembers)
@@ -230,18 +255,22 @@ NextP(UsePolicy) ==
                     AddAssetOK(T, n, i, d, ni, nn, vNextH)
               \/ UsePolicy /\ AddAssetCollide(T, n, i, d, ni, vNextH)
         \/ AddAssetRej(T, n, i, d, vNextH)
-  \/ \E hh \in LiveH \cup vDead : RemoveAssetOK(hh) \/ RemoveAssetRej(hh)
+  \/ \E hh \in LiveH : RemoveAssetOK(hh)
+  \/ \E hh \in vDead : RemoveAssetRej(hh)
   \/ \E hh \in LiveH : \E d \in Defenses(Lng, TypeOfH(hh)), v \in DefVals : SetDefense(hh, d, v)
   \/ \E hh \in LiveH, x \in ExtrasPool : SetAssetExtras(hh, x)
   \/ \E c \in DOMAIN Lng.assocs, l \in Members, r \in Members : AddAssociation(c, l, r, vNextH)
-  \/ \E ah \in LiveAs \cup vDeadAs : RemoveAssociationOK(ah) \/ RemoveAssociationRej(ah)
+  \/ \E ah \in LiveAs : RemoveAssociationOK(ah)
+  \/ \E ah \in vDeadAs : RemoveAssociationRej(ah)
   \/ \E hh \in LiveH \cup vDead, ah \in LiveAs \cup vDeadAs : RemoveFromAssoc(hh, ah)
   \/ \E ah \in LiveAs, x \in ExtrasPool : SetAssocExtras(ah, x)
   \/ \E i \in IdPool, n \in {NONE, "atk"} :
         \E ni \in (IF i # NoId THEN {i} ELSE IF UsePolicy THEN {vNextId} ELSE FreshPool) :
-           AddAttacker(i, n, ni, IF n = NONE THEN (IF UsePolicy THEN "Attacker:" \o ToString(ni) ELSE "autoatk") ELSE n, vNextH)
-  \/ \E th \in LiveAtk \cup vDeadAtk : RemoveAttackerOK(th) \/ RemoveAttackerRej(th)
-  \/ \E th \in LiveAtk, hh \in LiveH, s \in StepPool : AddEntryPoint(th, hh, s) \/ RemoveEntryPoint(th, hh, s)
+           AddAttacker(i, n, ni, IF n = NONE THEN (IF UsePolicy THEN "Attacker:" \o ToString(ni) ELSE "autoatk") ELSE n, <<>>, vNextH)
+  \/ \E th \in LiveAtk : RemoveAttackerOK(th)
+  \/ \E th \in vDeadAtk : RemoveAttackerRej(th)
+  \/ \E th \in LiveAtk, hh \in LiveH, s \in StepPool : AddEntryPoint(th, hh, s)
+  \/ \E th \in LiveAtk, hh \in LiveH \cup {x \in vDead : vGone[x].name # NONE}, s \in StepPool : RemoveEntryPoint(th, hh, s)
 Next == NextP(FALSE)
 Spec == Init /\ [][Next]_mvars
 
@@ -295,5 +324,5 @@ RemovedLeavesNoTrace ==
         /\ a.name \notin {vAssets'[k].name : k \in DOMAIN vAssets'}
         /\ \A k \in DOMAIN vAssocs' : a.h \notin Range(vAssocs'[k].l) \cup Range(vAssocs'[k].r)
         /\ \A k \in DOMAIN vAtk' : \A i \in DOMAIN vAtk'[k].ep : vAtk'[k].ep[i].a # a.h]_mvars
-StateView == <<vAssets, vAssocs, vAtk, vDead, vDeadAs, vDeadAtk, vNextId, vNextH>>
+StateView == <<vAssets, vAssocs, vAtk, vDead, vDeadAs, vDeadAtk, vGone, vNextId, vNextH>>
 =============================================================================
